@@ -21,7 +21,7 @@ use bitcoin::{OutPoint as BOutPoint, Transaction, Txid};
 
 use lightning::chain::chainmonitor::Persist;
 use lightning::chain::channelmonitor::verif_hooks_fwd::{monitor_htlc_view, update_step_details};
-use lightning::chain::channelmonitor::{ChannelMonitor, ChannelMonitorUpdate};
+use lightning::chain::channelmonitor::{ChannelMonitor, ChannelMonitorUpdate, ANTI_REORG_DELAY};
 use lightning::chain::{BlockLocator, ChannelMonitorUpdateStatus, Confirm};
 use lightning::events::{ClosureReason, Event, HTLCHandlingFailureType};
 use lightning::ln::channelmanager::{ChannelManagerReadArgs, PaymentId};
@@ -263,6 +263,8 @@ struct Params {
 	p_burst: u64,
 	/// feerate changes by the funders: (who: 0 = A, 2 = C; new feerate sat/kw)
 	fee_bumps: Vec<(usize, u32)>,
+	/// B (instead of C) funds the downstream channel and is the one who sends update_fee there
+	b_funds_d: bool,
 	class: u8,
 }
 
@@ -279,6 +281,7 @@ fn gen_params(rng: &mut Rng) -> Params {
 	};
 	let mut c_delay = 0;
 	let mut u_closer = if rng.below(6) == 0 { 1 + rng.below(2) as u8 } else { 0 };
+	let mut b_funds_d = false;
 	match class {
 		0 => {
 			// an MPP payment of 2-3 parts (distinct amounts), same or different downstream channels,
@@ -315,7 +318,8 @@ fn gen_params(rng: &mut Rng) -> Params {
 				};
 				payments.push(vec![PartSpec { amt_msat: sat * 1000 + rng.below(1000), u: rng.below(2) as usize, d: 0 }]);
 			}
-			let who = if rng.below(3) == 0 { A } else { C };
+			b_funds_d = rng.below(4) == 0;
+			let who = if b_funds_d { B } else if rng.below(3) == 0 { A } else { C };
 			fee_bumps.push((who, feerate_new));
 			if rng.below(3) == 0 {
 				fee_bumps.push((who, [253u32, 1000, 20_000][rng.below(3) as usize]));
@@ -352,6 +356,7 @@ fn gen_params(rng: &mut Rng) -> Params {
 		delta: [48, 72][rng.below(2) as usize],
 		p_burst: [0, 2, 5][rng.below(3) as usize],
 		fee_bumps,
+		b_funds_d,
 		class,
 	}
 }
@@ -1341,7 +1346,11 @@ fn run_with_params(p: Params, mut rng: Rng, trace: TraceRef) {
 		chans.push((c.2, "U2"));
 		scids.insert("U2", c.0.contents.short_channel_id);
 	}
-	let cd = create_announced_chan_between_nodes_with_value(&nodes, C, B, 1_000_000, 600_000_000);
+	let cd = if p.b_funds_d {
+		create_announced_chan_between_nodes_with_value(&nodes, B, C, 1_000_000, 400_000_000)
+	} else {
+		create_announced_chan_between_nodes_with_value(&nodes, C, B, 1_000_000, 600_000_000)
+	};
 	chans.push((cd.2, "D"));
 	scids.insert("D", cd.0.contents.short_channel_id);
 	if need_d2 {
@@ -1728,6 +1737,129 @@ fn run_with_params(p: Params, mut rng: Rng, trace: TraceRef) {
 	std::mem::forget(w);
 }
 
+// ------------------------------------------------------------------------------------------------
+// scripted cases: preimage learned late relative to the close of a (possibly spliced) upstream channel
+// ------------------------------------------------------------------------------------------------
+/// A -> B -> C with an HTLC pending through B; the A - B channel is optionally spliced (`splice` 0 no,
+/// 1 splice transaction confirmed but not yet locked); A force-closes it; C claims and B learns
+/// the preimage by message `timing` 0 before A's close, 1 right after A's commitment confirmed, 2 six
+/// blocks later. Recorded: how many transactions B broadcast that spend A's commitment with the preimage.
+fn splice_case(splice: u8, timing: u8, trace: TraceRef) {
+	use bitcoin::Amount;
+	use lightning::ln::splicing_tests::{do_initiate_splice_in, splice_channel};
+	let chanmon_cfgs = create_chanmon_cfgs(3);
+	let node_cfgs = create_node_cfgs(3, &chanmon_cfgs);
+	let node_chanmgrs = create_node_chanmgrs(3, &node_cfgs, &[None, None, None]);
+	let nodes = create_network(3, &node_cfgs, &node_chanmgrs);
+	for n in nodes.iter() {
+		*n.connect_style.borrow_mut() = ConnectStyle::BestBlockFirst;
+	}
+	let node_id_b = nodes[1].node.get_our_node_id();
+	let node_id_c = nodes[2].node.get_our_node_id();
+	let cap = 100_000;
+	let (_, _, chan_id_ab, _) = create_announced_chan_between_nodes_with_value(&nodes, 0, 1, cap, 0);
+	create_announced_chan_between_nodes_with_value(&nodes, 1, 2, cap, 0);
+	let _coinbase_tx = provide_utxo_reserves(&nodes, 1, Amount::ONE_BTC);
+	let payment_amount = 1_000_000;
+	let (preimage, _payment_hash, ..) = route_payment(&nodes[0], &[&nodes[1], &nodes[2]], payment_amount);
+
+	if splice >= 1 {
+		let contribution = do_initiate_splice_in(&nodes[0], &nodes[1], chan_id_ab, Amount::from_sat(cap / 2));
+		let (splice_tx, _) = splice_channel(&nodes[0], &nodes[1], chan_id_ab, contribution);
+		mine_transaction(&nodes[0], &splice_tx);
+		mine_transaction(&nodes[1], &splice_tx);
+	}
+	let learn = |nodes: &Vec<Node>| {
+		nodes[2].node.claim_funds(preimage);
+		let _ = nodes[2].node.get_and_clear_pending_events();
+		nodes[2].chain_monitor.added_monitors.lock().unwrap().clear();
+		let mut cs_updates = get_htlc_update_msgs(&nodes[2], &node_id_b);
+		nodes[1].node.handle_update_fulfill_htlc(node_id_c, cs_updates.update_fulfill_htlcs.remove(0));
+		nodes[1].chain_monitor.added_monitors.lock().unwrap().clear();
+		let _ = nodes[1].node.get_and_clear_pending_events();
+		// whatever B wants to tell A stays undelivered: A is about to go (or has gone) on chain
+		let _ = nodes[1].node.get_and_clear_pending_msg_events();
+		nodes[1].chain_monitor.added_monitors.lock().unwrap().clear();
+		do_commitment_signed_dance(&nodes[1], &nodes[2], &cs_updates.commitment_signed, false, false);
+		// whatever B wants to tell A stays undelivered: A is about to go (or has gone) on chain
+		let _ = nodes[1].node.get_and_clear_pending_msg_events();
+		nodes[1].chain_monitor.added_monitors.lock().unwrap().clear();
+	};
+	if timing == 0 {
+		learn(&nodes);
+	}
+	nodes[0].node.force_close_broadcasting_latest_txn(&chan_id_ab, &node_id_b, "test".to_owned()).unwrap();
+	handle_bump_events(&nodes[0], true, 0);
+	let commitment_tx = {
+		let mut txn = nodes[0].tx_broadcaster.txn_broadcast();
+		txn.remove(0)
+	};
+	let _ = nodes[1].tx_broadcaster.txn_broadcast();
+	mine_transaction(&nodes[0], &commitment_tx);
+	mine_transaction(&nodes[1], &commitment_tx);
+	let _ = nodes[0].node.get_and_clear_pending_events();
+	let _ = nodes[1].node.get_and_clear_pending_events();
+	let _ = nodes[0].node.get_and_clear_pending_msg_events();
+	let _ = nodes[1].node.get_and_clear_pending_msg_events();
+	nodes[0].chain_monitor.added_monitors.lock().unwrap().clear();
+	nodes[1].chain_monitor.added_monitors.lock().unwrap().clear();
+	if timing == 2 {
+		connect_blocks(&nodes[1], ANTI_REORG_DELAY);
+		connect_blocks(&nodes[0], ANTI_REORG_DELAY);
+	}
+	if timing >= 1 {
+		learn(&nodes);
+	}
+	connect_blocks(&nodes[1], 1);
+	let bs_txn = nodes[1].tx_broadcaster.txn_broadcast();
+	let commitment_txid = commitment_tx.compute_txid();
+	let claims = bs_txn
+		.iter()
+		.filter(|tx| {
+			tx.input.iter().any(|inp| {
+				inp.previous_output.txid == commitment_txid && inp.witness.iter().any(|elem| elem == &preimage.0[..])
+			})
+		})
+		.count();
+	let has_htlc_output = commitment_tx.output.iter().any(|o| o.value.to_sat() == payment_amount / 1000 + 1 || o.value.to_sat() == (payment_amount + 1000) / 1000 || o.value.to_sat() == 1001 || o.value.to_sat() == 1000);
+	trace.lock().unwrap().rec(
+		"SPLICE",
+		format!(
+			"splice={} timing={} claims={} commitment_outputs={} htlc_output={}",
+			splice,
+			timing,
+			claims,
+			commitment_tx.output.iter().map(|o| o.value.to_sat().to_string()).collect::<Vec<_>>().join("/"),
+			has_htlc_output
+		),
+	);
+	std::mem::forget(nodes);
+}
+
+fn run_splice_cases(out: &mut std::fs::File) {
+	let mut idx = 0u64;
+	for splice in 0..2u8 {
+		for timing in 0..3u8 {
+			let trace: TraceRef = Arc::new(Mutex::new(Trace { scen: idx, step: 0, lines: Vec::new() }));
+			let t2 = trace.clone();
+			let res = panic::catch_unwind(AssertUnwindSafe(|| splice_case(splice, timing, t2)));
+			let mut tr = match trace.lock() {
+				Ok(g) => g,
+				Err(p) => p.into_inner(),
+			};
+			if res.is_err() {
+				let msg = LAST_PANIC.with(|m| m.borrow().clone());
+				tr.rec("PANIC", format!("splice={} timing={} msg={}", splice, timing, msg.replace('\n', " ").replace(' ', "_")));
+			}
+			for l in tr.lines.iter() {
+				writeln!(out, "{}", l).unwrap();
+			}
+			idx += 1;
+		}
+	}
+	out.flush().unwrap();
+}
+
 thread_local! {
 	static LAST_PANIC: std::cell::RefCell<String> = std::cell::RefCell::new(String::new());
 }
@@ -1782,6 +1914,11 @@ fn main() {
 			for i in first..first + count {
 				run_one(seed, i, &mut out);
 			}
+		},
+		"splice" => {
+			// h_fwdm splice <ignored> <ignored> <outfile>
+			let mut out = std::fs::File::create(&args[4]).unwrap();
+			run_splice_cases(&mut out);
 		},
 		_ => {
 			let index: u64 = args[3].parse().unwrap();
